@@ -1,4 +1,5 @@
 import WV.Proofs.C03
+import WV.Proofs.C03_Sys
 import WV.Gen.Skel
 
 /-!
@@ -10,9 +11,10 @@ machine steps that `WV.C03.driver` executes (`bossIn`, `sendIn`, `mboxIn`, `wRec
 only fold those steps and are defined in `WV/Proofs/C03.lean`.  The Automat tables inside the steps
 are the generated ones, so a changed row re-opens the proofs.
 
-That the *composed* real client is an instance of `Pipe` (`client_refines_pipe`) is not proved in
-Lean; it is covered by the differential runs of `Client` against the real objects and by the
-whole-client oracle (level: proof of components + validated composition).
+The composition is proved too (`e2e_prefix_clients`, at the end): two composed `Client`s — the very
+functions `cBoss`, `cSend`, `cMbox`, `cMboxRx`, `cRecvRes` the driver executes — and a server that
+stores, duplicates, reorders and replays, under every schedule.  That the *real* client is this
+`Client` is what the differential runs and the whole-client oracle check.
 -/
 namespace WV.Props.C03
 open WV WV.C03 WV.Gen WV.Proofs.C03
@@ -325,5 +327,99 @@ def modelSkeleton : List (String × List (String × String)) :=
     ("Receive.S_got_verified_key", [("-", "_S.got_verified_key")]) ]
 
 theorem skeleton_agrees : ∀ e ∈ modelSkeleton, Skel.skeleton e.1 = e.2 := by decide +kernel
+
+
+/-! ## composition: two clients and the server -/
+
+/-- **phase_roundtrip.**  The phase name `"%d" % i` written by `S_send` is read back by
+    `Boss.got_message` (`^\d+$`, `int()`) as the numeric phase `i` — never as `version`, `dilate-N`
+    or an unknown phase. -/
+theorem phase_roundtrip (n : Nat) : classifyPhase (showPhase n) = .numeric n := classify_showPhase n
+
+/-- **observer_fifo with errors.**  Also when the wormhole closes in between (`fire(Failure)` at any
+    points of the trace): the plaintexts handed to `get_message()` callbacks so far, followed by the
+    unclaimed ones, are exactly the received plaintexts in order — so what the application got from
+    its Deferreds is always a prefix of what was received, each once, never reordered. -/
+theorem observer_prefix_with_errors (tr : List ObsOpE) :
+    okVals ((obsRunE obsInit tr).fired ++ (obsRunE obsInit tr).queue) ++ (obsRunE obsInit tr).results
+      = firesOfE tr ∧
+    okVals (obsRunE obsInit tr).fired <+: firesOfE tr := by
+  have h := obsRunE_vals tr obsInit
+  simp only [obsInit, List.append_nil, okVals_nil, List.nil_append] at h
+  refine ⟨h, ?_⟩
+  rw [← h, okVals_append, List.append_assoc]
+  exact List.prefix_append _ _
+
+example : okVals (obsRunE obsInit [.op .get, .op (.fire [1]), .op (.fire [2]), .op .turn, .error, .op .get,
+    .op (.fire [3]), .op .turn]).fired = [[1]] := by decide
+
+/-- **e2e_prefix_clients** (`client_refines_pipe`).  Two composed clients A and B (sides `sa ≠ sb`)
+    and a server bag, under the ideal-crypto hypothesis, for ALL schedules `acts` of
+
+    * any operation on either client: `send_message`, any Boss input without plaintext (close, error,
+      got_code, got_key, happy, scared, rx_error, …), `Receive.got_key`, `Send.got_verified_key`, any
+      Mailbox input (connected / lost at any moment, got_mailbox, close, rx_closed), Key's
+      `add_message` of non-numeric phases (pake, version), `get_message()`, eventual turns;
+    * `store`: the server stores any frame a client ever wrote, any number of times, in any order;
+    * `deliver`: the server hands any stored message to any client, any time, any number of times
+      (duplication, reordering, full replay after a re-open, echoes);
+
+    in the reached state, what B's application has received (`W.received` calls, and the values of
+    its `get_message()` callbacks) is a prefix of what A's application passed to `send_message` — it
+    is exactly the first `_next_rx_phase` of them: no duplicate, no gap, no reordering, no altered
+    body — and symmetrically for A. -/
+theorem e2e_prefix_clients (C : Crypto) (hC : C.Ideal) (sa sb : String) (hne : sa ≠ sb) (acts : List SAct) :
+    let s := Sys.run C (sysInit sa sb) acts
+    (receivedOf s.b.log = s.sentA.take s.b.boss.rx.next ∧ receivedOf s.a.log = s.sentB.take s.a.boss.rx.next) ∧
+    (receivedOf s.b.log <+: s.sentA ∧ receivedOf s.a.log <+: s.sentB) ∧
+    (okVals s.b.obs.fired <+: s.sentA ∧ okVals s.a.obs.fired <+: s.sentB) := by
+  intro s
+  have h := sysRun_inv C hC sa sb acts (sysInit sa sb) (sysInit_inv C sa sb hne)
+  have hb := h.b.loop.recv
+  have ha := h.a.loop.recv
+  have pb : receivedOf s.b.log <+: s.sentA := hb ▸ List.take_prefix _ _
+  have pa : receivedOf s.a.log <+: s.sentB := ha ▸ List.take_prefix _ _
+  have ob : okVals s.b.obs.fired <+: receivedOf s.b.log := by
+    rw [← h.b.rest.obs, okVals_append, List.append_assoc]; exact List.prefix_append _ _
+  have oa : okVals s.a.obs.fired <+: receivedOf s.a.log := by
+    rw [← h.a.rest.obs, okVals_append, List.append_assoc]; exact List.prefix_append _ _
+  exact ⟨⟨hb, ha⟩, ⟨pb, pa⟩, ⟨ob.trans pb, oa.trans pa⟩⟩
+
+/-- … and everything the server ever stores under a numeric phase `i` of side A is the sealing of
+    the i-th plaintext A's application sent (nothing else is ever submitted under that phase). -/
+theorem stored_is_sealed (C : Crypto) (hC : C.Ideal) (sa sb : String) (hne : sa ≠ sb) (acts : List SAct) :
+    let s := Sys.run C (sysInit sa sb) acts
+    ∀ p b i, (sa, p, b) ∈ s.bag → classifyPhase p = .numeric i → ∃ pt, s.sentA[i]? = some pt ∧ b = C.enc sa p pt := by
+  intro s p b i hm hc
+  have h := sysRun_inv C hC sa sb acts (sysInit sa sb) (sysInit_inv C sa sb hne)
+  rcases h.bag _ hm with ⟨_, htx⟩ | ⟨hs, _⟩
+  · rcases htx with htx | ⟨j, pt, e1, e2, e3⟩
+    · exact absurd hc (htx i)
+    · simp only at e1 e2 e3
+      rw [e1, classify_showPhase] at hc
+      injection hc with hc
+      subst hc
+      exact ⟨pt, e2, e3⟩
+  · exact absurd hs hne
+
+/-- a concrete schedule for the system: sends before verification, replays, a duplicate, a reconnect of
+    each side, out-of-order arrival (2, 0, 0, 3, 2, 1) — B receives everything, once, in order -/
+def demoSetup (w : Bool) : List SAct :=
+  [.op w (.mbox .connected .none), .op w (.mbox .got_mailbox .mailbox), .op w (.boss .got_code .one), .op w .key,
+   .op w (.addRaw "pake" [1]), .op w (.addRaw "version" [2])]
+
+def demoActs : List SAct := demoSetup false ++ demoSetup true ++
+  [.op false (.send [7]), .store true 2, .store true 3, .deliver false 0, .deliver false 1,
+   .store false 2, .store false 3, .deliver true 2, .deliver true 3,
+   .op false (.send [8]), .op false (.send [9]), .op false (.mbox .lost .none), .op false (.send [10]),
+   .op false (.mbox .connected .none),
+   .store false 12, .store false 7, .store false 19, .store false 17,
+   .deliver true 4, .deliver true 5, .op true .getMessage, .deliver true 5, .op true (.mbox .lost .none),
+   .op true (.mbox .connected .none), .deliver true 6, .deliver true 4, .deliver true 7, .op true .getMessage,
+   .op true .turn]
+
+example : receivedOf (Sys.run plainCrypto (sysInit "aa" "bb") demoActs).b.log = [[7], [8], [9], [10]] ∧
+    okVals (Sys.run plainCrypto (sysInit "aa" "bb") demoActs).b.obs.fired = [[7], [8]] ∧
+    (Sys.run plainCrypto (sysInit "aa" "bb") demoActs).sentA = [[7], [8], [9], [10]] := by decide
 
 end WV.Props.C03
